@@ -370,7 +370,8 @@ def frame_fingerprint(df):
     if isinstance(df, pd.Series):
         return ('S', str(df.dtype), df.name, tuple(map(repr, df.index.tolist())),
                 tuple((type(v).__name__, cell(v)) for v in df.tolist()))
-    return ('F', tuple(map(str, df.columns)), tuple(str(t) for t in df.dtypes),
+    return ('F', tuple(sorted(map(str, getattr(df, 'attrs', {}) or {}))), tuple(map(str, df.columns)),
+            tuple(str(t) for t in df.dtypes),
             tuple(map(repr, df.index.tolist())),
             tuple(tuple((type(v).__name__, cell(v)) for v in row)
                   for row in df.values.tolist()))
